@@ -1,12 +1,16 @@
 #!/bin/bash
 # Re-run every kept seeded change against the checks recorded in its meta.json; prints one line per change.
+# PAR changes run at a time (default 4), each with WORKERS simulation workers (default 4).
 cd /verif
-for d in seeded/*/; do
-  id=$(basename $d)
+one() {
+  d=seeded/$1/
+  id=$1
   checks=$(python3 -c "import json;print(' '.join(json.load(open('$d/meta.json'))['confirmed_by_me']['checks_run']))")
-  out=$(WORKERS=${WORKERS:-8} SCALE=${SCALE:-1} tools/seeded.sh /verif/$d $checks 2>&1)
+  out=$(WORKERS=${WORKERS:-4} SCALE=${SCALE:-1} tools/seeded.sh /verif/$d $checks 2>&1)
   n=$(echo "$out" | grep -c "^VIOLATION")
   suite=$(echo "$out" | grep -o "SUITE with patch: [0-9/]* stable tests pass")
   sigs=$(echo "$out" | grep "signature:" | sed 's/ *signature: //' | cut -c1-70 | tr '\n' ';')
   echo "$id [$checks] violations=$n $suite :: $sigs"
-done
+}
+export -f one
+ls seeded | grep -v RESULTS.md | grep "${ONLY:-.}" | xargs -P ${PAR:-4} -I{} bash -c 'one {}'
